@@ -492,6 +492,9 @@ func (s *sim) boot() {
 	s.c.client = &fakeK8s{s}
 	s.hasCfg = false
 	s.w.ServiceReadFault = func(kind string) error {
+		if kind == "slices" {
+			return nil
+		}
 		q := &s.readFail
 		if kind == "list" {
 			q = &s.listFail
